@@ -13,6 +13,7 @@ import (
 	"github.com/gordian-engine/gordian/gwatchdog"
 	"github.com/gordian-engine/gordian/internal/gchan"
 	"github.com/gordian-engine/gordian/internal/glog"
+	"github.com/gordian-engine/gordian/internal/verifhook"
 	"github.com/gordian-engine/gordian/tm/tmconsensus"
 	"github.com/gordian-engine/gordian/tm/tmengine/internal/tmeil"
 	"github.com/gordian-engine/gordian/tm/tmengine/internal/tmemetrics"
@@ -246,6 +247,7 @@ func (m *Mirror) HandleProposedHeader(ctx context.Context, ph tmconsensus.Propos
 	}
 
 RESTART:
+	verifhook.Point(ctx, "mirror.ph.restart")
 	req := tmi.PHCheckRequest{
 		PH:   ph,
 		Resp: make(chan tmi.PHCheckResponse, 1),
@@ -474,6 +476,7 @@ RETRY:
 	if !ok {
 		return tmconsensus.HandleVoteProofsInternalError
 	}
+	verifhook.Point(ctx, "mirror.vote.afterLookup")
 
 	if vlResp.Status == tmi.ViewFuture {
 		// Special handling for this case.
@@ -559,6 +562,7 @@ RETRY:
 		Response: resp,
 	}
 
+	verifhook.Point(ctx, "mirror.vote.beforeAdd")
 	result, ok := gchan.ReqResp(
 		ctx, m.log,
 		m.addPrevoteRequests, addReq,
@@ -759,6 +763,7 @@ func (m *Mirror) handleFuturePrevoteProofs(
 		Resp: ch,
 	}
 
+	verifhook.Point(ctx, "mirror.futurevote.beforeAdd")
 	result, ok := gchan.ReqResp(
 		ctx, m.log,
 		m.addFuturePrevoteRequests, fReq,
@@ -831,6 +836,7 @@ RETRY:
 	if !ok {
 		return tmconsensus.HandleVoteProofsInternalError
 	}
+	verifhook.Point(ctx, "mirror.vote.afterLookup")
 
 	if vlResp.Status == tmi.ViewFuture {
 		// Special handling for this case.
@@ -917,6 +923,7 @@ RETRY:
 		Response: resp,
 	}
 
+	verifhook.Point(ctx, "mirror.vote.beforeAdd")
 	result, ok := gchan.ReqResp(
 		ctx, m.log,
 		m.addPrecommitRequests, addReq,
@@ -1110,6 +1117,7 @@ func (m *Mirror) handleFuturePrecommitProofs(
 		Resp: ch,
 	}
 
+	verifhook.Point(ctx, "mirror.futurevote.beforeAdd")
 	result, ok := gchan.ReqResp(
 		ctx, m.log,
 		m.addFuturePrecommitRequests, fReq,
